@@ -941,7 +941,8 @@ func (up4 *UP4) releaseSessionMeterCellID(allocated uint32) {
 }
 
 func (up4 *UP4) updateUEAddrAndFSEIDMappings(pdr pdr) {
-	if pdr.IsUplink() {
+	// only a downlink PDR tells the UE address of its session
+	if !pdr.IsDownlink() {
 		return
 	}
 
@@ -949,8 +950,48 @@ func (up4 *UP4) updateUEAddrAndFSEIDMappings(pdr pdr) {
 	up4.ueAddrToFSEID[pdr.ueAddress], up4.fseidToUEAddr[pdr.fseID] = pdr.fseID, pdr.ueAddress
 }
 
+// rememberUEAddrAndFSEIDMappings returns a function that puts the mappings which
+// updateUEAddrAndFSEIDMappings would change for pdrs back to their current state.
+func (up4 *UP4) rememberUEAddrAndFSEIDMappings(pdrs []pdr) func() {
+	type saved struct {
+		ueAddr, prevUEAddr  uint32
+		fseid, prevFSEID    uint64
+		hadUEAddr, hadFSEID bool
+	}
+
+	var all []saved
+
+	for _, p := range pdrs {
+		if !p.IsDownlink() {
+			continue
+		}
+
+		s := saved{ueAddr: p.ueAddress, fseid: p.fseID}
+		s.prevFSEID, s.hadUEAddr = up4.ueAddrToFSEID[p.ueAddress]
+		s.prevUEAddr, s.hadFSEID = up4.fseidToUEAddr[p.fseID]
+		all = append(all, s)
+	}
+
+	return func() {
+		for i := len(all) - 1; i >= 0; i-- {
+			s := all[i]
+			if s.hadUEAddr {
+				up4.ueAddrToFSEID[s.ueAddr] = s.prevFSEID
+			} else {
+				delete(up4.ueAddrToFSEID, s.ueAddr)
+			}
+
+			if s.hadFSEID {
+				up4.fseidToUEAddr[s.fseid] = s.prevUEAddr
+			} else {
+				delete(up4.fseidToUEAddr, s.fseid)
+			}
+		}
+	}
+}
+
 func (up4 *UP4) removeUeAddrAndFSEIDMappings(pdr pdr) {
-	if pdr.IsUplink() {
+	if !pdr.IsDownlink() {
 		return
 	}
 
@@ -1515,16 +1556,21 @@ func (up4 *UP4) releaseStaleTunnelPeers(fars []far) {
 }
 
 func (up4 *UP4) sendUpdate(all PacketForwardingRules, updated PacketForwardingRules) error {
-	// Update PDR IE might modify UE IP <-> F-SEID mappings
+	// Update PDR IE might modify UE IP <-> F-SEID mappings;
+	// a modification that fails is rejected and must leave them as they were.
+	restoreMappings := up4.rememberUEAddrAndFSEIDMappings(updated.pdrs)
+
 	for _, p := range updated.pdrs {
 		up4.updateUEAddrAndFSEIDMappings(p)
 	}
 
 	if err := up4.updateTunnelPeersBasedOnFARs(updated.fars); err != nil {
+		restoreMappings()
 		return err
 	}
 
 	if err := up4.modifyUP4ForwardingConfiguration(all.pdrs, all.fars, all.qers, p4.Update_MODIFY); err != nil {
+		restoreMappings()
 		return err
 	}
 
